@@ -565,4 +565,288 @@ theorem turn_processed (caught : List RdErr) (H : Hooks σ) (st : St σ) :
 
 theorem processed_prefix_spawned (st : St σ) : st.processed <+: st.spawned := List.prefix_append _ _
 
+/-! ### the application tables: each receive step applied exactly once, in order -/
+
+/-- the effect of the receive steps of `ps` on the tables, one after the other -/
+def recvAll (H : Hooks σ) (a : σ) (ps : List Pkt) : σ := ps.foldl (fun a p => (H.recv a p).1) a
+
+theorem recvAll_append (H : Hooks σ) (a : σ) (ps qs : List Pkt) :
+    recvAll H a (ps ++ qs) = recvAll H (recvAll H a ps) qs := by simp [recvAll, List.foldl_append]
+
+theorem runTask_app (H : Hooks σ) (st : St σ) (p : Pkt) (hb : st.bad = []) :
+    (runTask H st p).app = (H.recv st.app p).1 := by
+  simp [runTask, hb]
+
+theorem runTasks_app (H : Hooks σ) : ∀ (ps : List Pkt) (st : St σ), st.bad = [] →
+    (runTasks H st ps).app = recvAll H st.app ps
+  | [], st, _ => rfl
+  | p :: ps, st, hb => by
+    have hb' : (runTask H st p).bad = [] := by rw [(runTask_face H st p).2.2.2.1]; exact hb
+    simp only [runTasks]
+    rw [runTasks_app H ps _ hb', runTask_app H st p hb]
+    rfl
+
+/-- no `raise` mark so far, connection open: the tables are the receive steps of the packets delivered, applied in
+    order to the initial tables -/
+structure AppInv (H : Hooks σ) (a : σ) (st : St σ) : Prop where
+  bad : st.bad = []
+  app : st.app = recvAll H a st.processed
+
+theorem afterPass_app_running (H : Hooks σ) (st : St σ) (res : Face × List Pkt) (h : res.1.status = .running) :
+    (afterPass H st res).app = st.app := by simp [afterPass, h]
+
+theorem afterPass_app_ended (H : Hooks σ) (st : St σ) (res : Face × List Pkt) (h : res.1.status ≠ .running) :
+    (afterPass H st res).app = H.cleanup st.app := by simp [afterPass, h]
+
+theorem appInv_step (caught : List RdErr) (H : Hooks σ) (a : σ) {st : St σ} {s : Bytes} (hi : Inv st s) (ho : Open st)
+    (ha : AppInv H a st) (ev : Ev) (hq : ev.quiet = true) (hr : ev.isRaise = false) :
+    AppInv H a (step caught H st ev) := by
+  obtain ⟨hb, happ⟩ := ha
+  cases ev with
+  | feed c =>
+    have ho' := open_step caught H hi ho (.feed c) hq
+    have hs : st.face.status = .running := ho.2
+    simp only [step, hs] at ho' ⊢
+    obtain ⟨af, _, ap, ab, _⟩ := afterPass_face H st (readerPass caught st.running (st.face.reader.apply (.feed c)) st.face.phase)
+    refine ⟨by rw [ab]; exact hb, ?_⟩
+    rw [afterPass_app_running H st _ (by rw [← af]; exact ho'.2), ap]
+    exact happ
+  | close c => cases hq
+  | exc e => cases hq
+  | shutdown => cases hq
+  | turn =>
+    obtain ⟨_, _, _, hbad, hp⟩ := runTasks_face H st.queue st
+    refine ⟨by simp only [step]; rw [hbad]; exact hb, ?_⟩
+    simp only [step]
+    rw [runTasks_app H st.queue st hb, hp, recvAll_append, happ]
+  | step1 =>
+    simp only [step]
+    split
+    · exact ⟨hb, happ⟩
+    · next p q hq' =>
+      obtain ⟨_, _, _, hbad, hp⟩ := runTask_face H st p
+      refine ⟨by show (runTask H st p).bad = []; rw [hbad]; exact hb, ?_⟩
+      show (runTask H st p).app = recvAll H a (runTask H st p).processed
+      rw [runTask_app H st p hb, hp, recvAll_append, happ]
+      rfl
+  | raise k => cases hr
+
+theorem appInv_runFrom (caught : List RdErr) (H : Hooks σ) (a : σ) (h : List Ev) : ∀ {st : St σ} {s : Bytes},
+    Inv st s → Open st → AppInv H a st → h.all Ev.quiet = true → h.all (fun e => !e.isRaise) = true →
+    AppInv H a (runFrom caught H st h) := by
+  induction h with
+  | nil => intro st s _ _ ha _ _; exact ha
+  | cons e es ih =>
+    intro st s hi ho ha hq hr
+    simp only [List.all_cons, Bool.and_eq_true, Bool.not_eq_true'] at hq hr
+    exact ih (inv_step caught H hi e) (open_step caught H hi ho e hq.1)
+      (appInv_step caught H a hi ho ha e hq.1 hr.1) hq.2 (by simpa using hr.2)
+
+theorem turn_app (caught : List RdErr) (H : Hooks σ) (st : St σ) (hb : st.bad = []) :
+    (step caught H st .turn).app = recvAll H st.app st.queue := by
+  simp only [step]; exact runTasks_app H _ _ hb
+
+/-- the end of the stream reaches an open connection: `_clean_up` runs in that pass, the tasks queued then and the
+    tasks created in that pass run afterwards -/
+theorem close_turn_app (caught : List RdErr) (H : Hooks σ) {st : St σ} {s : Bytes} (hi : Inv st s) (ho : Open st)
+    (hb : st.bad = []) (c : Bytes) :
+    let fin := step caught H (step caught H st (.close c)) .turn
+    fin.processed = (frames (s ++ c)).1 ∧
+    fin.app = recvAll H (H.cleanup st.app) ((frames (s ++ c)).1.drop st.processed.length) := by
+  obtain ⟨c1, c2⟩ := close_open caught H hi ho c
+  have hne : (step caught H st (.close c)).face.status ≠ .running := by rw [c1]; exact handled_ne_running _ _
+  intro fin
+  obtain ⟨t1, _⟩ := turn_processed caught H (step caught H st (.close c))
+  refine ⟨t1.trans c2, ?_⟩
+  have hs : st.face.status = .running := ho.2
+  have hstep : step caught H st (.close c) = afterPass H st
+      (readerPass caught st.running ((st.face.reader.apply (.feed c)).apply .feedEof) st.face.phase) := by
+    simp only [step, hs]
+  obtain ⟨af, aq, ap, ab, _⟩ := afterPass_face H st
+    (readerPass caught st.running ((st.face.reader.apply (.feed c)).apply .feedEof) st.face.phase)
+  have happ := afterPass_app_ended H st
+    (readerPass caught st.running ((st.face.reader.apply (.feed c)).apply .feedEof) st.face.phase)
+    (by rw [← af, ← hstep]; exact hne)
+  have hq : (step caught H st (.close c)).queue = (frames (s ++ c)).1.drop st.processed.length := by
+    have : (step caught H st (.close c)).processed ++ (step caught H st (.close c)).queue = (frames (s ++ c)).1 := c2
+    rw [← this, hstep, ap]; simp
+  show (step caught H (step caught H st (.close c)) .turn).app = _
+  rw [turn_app caught H _ (by rw [hstep, ab]; exact hb), hq, hstep, happ]
+
+/-! ### no unhandled error when the black box never raises -/
+
+theorem runTask_errors (H : Hooks σ) (hH : ∀ a p, (H.recv a p).2 = false) (st : St σ) (p : Pkt) (hb : st.bad = []) :
+    (runTask H st p).errors = st.errors := by
+  simp [runTask, hb, hH]
+
+theorem runTasks_errors (H : Hooks σ) (hH : ∀ a p, (H.recv a p).2 = false) : ∀ (ps : List Pkt) (st : St σ),
+    st.bad = [] → (runTasks H st ps).errors = st.errors
+  | [], _, _ => rfl
+  | p :: ps, st, hb => by
+    simp only [runTasks]
+    rw [runTasks_errors H hH ps _ (by rw [(runTask_face H st p).2.2.2.1]; exact hb), runTask_errors H hH st p hb]
+
+theorem step_errors (caught : List RdErr) (H : Hooks σ) (hH : ∀ a p, (H.recv a p).2 = false) (st : St σ) (ev : Ev)
+    (hr : ev.isRaise = false) (hb : st.bad = []) :
+    (step caught H st ev).bad = [] ∧ (step caught H st ev).errors = st.errors := by
+  cases ev with
+  | feed c =>
+    simp only [step]; split
+    · obtain ⟨_, _, _, a, b⟩ := afterPass_face H st (readerPass caught st.running (st.face.reader.apply (.feed c)) st.face.phase)
+      exact ⟨a.trans hb, b⟩
+    · exact ⟨hb, rfl⟩
+  | close c =>
+    simp only [step]; split
+    · obtain ⟨_, _, _, a, b⟩ := afterPass_face H st
+        (readerPass caught st.running ((st.face.reader.apply (.feed c)).apply .feedEof) st.face.phase)
+      exact ⟨a.trans hb, b⟩
+    · exact ⟨hb, rfl⟩
+  | exc e => simp only [step]; split <;> exact ⟨hb, rfl⟩
+  | shutdown => exact ⟨hb, rfl⟩
+  | turn =>
+    simp only [step]
+    exact ⟨(runTasks_face H st.queue st).2.2.2.1.trans hb, runTasks_errors H hH _ _ hb⟩
+  | step1 =>
+    simp only [step]; split
+    · exact ⟨hb, rfl⟩
+    · next p q _ => exact ⟨(runTask_face H st p).2.2.2.1.trans hb, runTask_errors H hH st p hb⟩
+  | raise k => cases hr
+
+theorem errors_runFrom (caught : List RdErr) (H : Hooks σ) (hH : ∀ a p, (H.recv a p).2 = false) (h : List Ev) :
+    ∀ (st : St σ), h.all (fun e => !e.isRaise) = true → st.bad = [] →
+    (runFrom caught H st h).errors = st.errors := by
+  induction h with
+  | nil => intro st _ _; rfl
+  | cons e es ih =>
+    intro st hr hb
+    simp only [List.all_cons, Bool.and_eq_true, Bool.not_eq_true'] at hr
+    obtain ⟨a, b⟩ := step_errors caught H hH st e hr.1 hb
+    simp only [runFrom]
+    rw [ih _ (by simpa using hr.2) a, b]
+
+/-! ### UDP -/
+namespace Udp
+
+theorem accepted_append (a b : List Bytes) : accepted (a ++ b) = accepted a ++ accepted b := by
+  simp [accepted, List.filterMap_append]
+
+theorem dgrams_append (a b : List Ev) : dgrams (a ++ b) = dgrams a ++ dgrams b := by
+  induction a with
+  | nil => rfl
+  | cons e es ih => cases e <;> simp [dgrams, ih]
+
+theorem step_spawned (caught : List PyErr) (H : Hooks σ) (u : USt σ) (ev : Ev) :
+    (step caught H u ev).st.spawned = u.st.spawned ++ accepted (dgrams [ev]) := by
+  cases ev with
+  | dgram d =>
+    simp only [step, Recv.datagramReceived, dgrams, accepted, List.filterMap_cons, List.filterMap_nil]
+    cases h : parseTlNum d 0 with
+    | ok p => obtain ⟨t, o⟩ := p; simp [St.spawned]
+    | error e => by_cases hc : e ∈ caught <;> simp [hc]
+  | lost => simp only [step]; split <;> simp [St.spawned, dgrams, accepted]
+  | shutdown => simp [step, St.spawned, dgrams, accepted]
+  | turn =>
+    obtain ⟨_, _, _, _, e⟩ := runTasks_face H u.st.queue u.st
+    simp [step, St.spawned, dgrams, accepted, e]
+  | step1 =>
+    simp only [step]; split
+    · simp [dgrams, accepted]
+    · next p q hq =>
+      obtain ⟨_, _, _, _, e⟩ := runTask_face H u.st p
+      simp [St.spawned, dgrams, accepted, e, hq]
+  | raise k => simp [step, St.spawned, dgrams, accepted]
+
+theorem runFrom_spawned (caught : List PyErr) (H : Hooks σ) (h : List Ev) : ∀ u : USt σ,
+    (runFrom caught H u h).st.spawned = u.st.spawned ++ accepted (dgrams h) := by
+  induction h with
+  | nil => intro u; simp [runFrom, dgrams, accepted]
+  | cons e es ih =>
+    intro u
+    simp only [runFrom]
+    rw [ih, step_spawned]
+    have : dgrams (e :: es) = dgrams [e] ++ dgrams es := dgrams_append [e] es
+    rw [this, accepted_append, List.append_assoc]
+
+theorem runFrom_append (caught : List PyErr) (H : Hooks σ) (u : USt σ) (h1 h2 : List Ev) :
+    runFrom caught H u (h1 ++ h2) = runFrom caught H (runFrom caught H u h1) h2 := by
+  induction h1 generalizing u with
+  | nil => rfl
+  | cons e es ih => simp only [List.cons_append, runFrom]; exact ih _
+
+theorem turn_processed (caught : List PyErr) (H : Hooks σ) (u : USt σ) :
+    (step caught H u .turn).st.processed = u.st.spawned ∧ (step caught H u .turn).st.queue = [] := by
+  obtain ⟨_, _, _, _, e⟩ := runTasks_face H u.st.queue u.st
+  simp [step, St.spawned, e]
+
+theorem step_cbErrors (caught : List PyErr) (H : Hooks σ) (hc : ∀ d, ∃ r, Recv.datagramReceived caught d = .ok r)
+    (u : USt σ) (ev : Ev) : (step caught H u ev).cbErrors = u.cbErrors := by
+  cases ev with
+  | dgram d =>
+    obtain ⟨r, hr⟩ := hc d
+    simp only [step, hr]
+    cases r <;> rfl
+  | lost => simp only [step]; split <;> rfl
+  | shutdown => rfl
+  | turn => rfl
+  | step1 => simp only [step]; split <;> rfl
+  | raise k => rfl
+
+theorem runFrom_cbErrors (caught : List PyErr) (H : Hooks σ) (hc : ∀ d, ∃ r, Recv.datagramReceived caught d = .ok r)
+    (h : List Ev) : ∀ u : USt σ, (runFrom caught H u h).cbErrors = u.cbErrors := by
+  induction h with
+  | nil => intro u; rfl
+  | cons e es ih => intro u; simp only [runFrom]; rw [ih, step_cbErrors caught H hc]
+
+/-- the part of the state the control flow depends on -/
+def ucore (u : USt σ) : Status × Bool × List Pkt × List Pkt × List PyErr :=
+  (u.st.face.status, u.st.running, u.st.queue, u.st.processed, u.cbErrors)
+
+theorem ucore_step {τ : Type} (caught : List PyErr) (H : Hooks σ) (H' : Hooks τ) (u1 : USt σ) (u2 : USt τ)
+    (hc : ucore u1 = ucore u2) (ev : Ev) : ucore (step caught H u1 ev) = ucore (step caught H' u2 ev) := by
+  simp only [ucore, Prod.mk.injEq] at hc
+  obtain ⟨h1, h2, h3, h4, h5⟩ := hc
+  cases ev with
+  | dgram d =>
+    simp only [step]
+    cases Recv.datagramReceived caught d with
+    | ok r => cases r <;> simp [ucore, h1, h2, h3, h4, h5]
+    | error e => simp [ucore, h1, h2, h3, h4, h5]
+  | lost =>
+    simp only [step, ← h1]
+    cases u1.st.face.status <;> simp [ucore, h1, h2, h3, h4, h5]
+  | shutdown => simp [step, ucore, h1, h3, h4, h5]
+  | turn =>
+    obtain ⟨a, b, _, _, e⟩ := runTasks_face H u1.st.queue u1.st
+    obtain ⟨a', b', _, _, e'⟩ := runTasks_face H' u2.st.queue u2.st
+    simp only [step, ucore, a, b, e, a', b', e']
+    simp [h1, h2, h3, h4, h5]
+  | step1 =>
+    simp only [step, ← h3]
+    cases hq : u1.st.queue with
+    | nil => simp [ucore, h1, h2, h4, h5, ← h3, hq]
+    | cons p q =>
+      obtain ⟨a, b, _, _, e⟩ := runTask_face H u1.st p
+      obtain ⟨a', b', _, _, e'⟩ := runTask_face H' u2.st p
+      simp only [ucore, a, b, e, a', b', e']
+      simp [h1, h2, h4, h5]
+  | raise k => simp [step, ucore, h1, h2, h3, h4, h5]
+
+theorem ucore_runFrom {τ : Type} (caught : List PyErr) (H : Hooks σ) (H' : Hooks τ) (h : List Ev) :
+    ∀ (u1 : USt σ) (u2 : USt τ), ucore u1 = ucore u2 →
+    ucore (runFrom caught H u1 h) = ucore (runFrom caught H' u2 (h.filter (fun e => !e.isRaise))) := by
+  induction h with
+  | nil => intro u1 u2 hc; exact hc
+  | cons e es ih =>
+    intro u1 u2 hc
+    cases hr : e.isRaise with
+    | true =>
+      cases e <;> simp [Ev.isRaise] at hr
+      simp only [List.filter, Ev.isRaise, Bool.not_true, runFrom]
+      exact ih _ _ hc
+    | false =>
+      simp only [List.filter, hr, Bool.not_false, runFrom]
+      exact ih _ _ (ucore_step caught H H' u1 u2 hc e)
+
+end Udp
+
 end Ndn.FaceTasks
